@@ -504,6 +504,44 @@ fn run(case: &Val) -> Val {
     Val::L(ev)
 }
 
+/// `c03 default-handler`: the DEFAULT error handler (Logger::new) with two failing appenders among four,
+/// run by the check in a child process whose stderr cannot be written (/dev/full, or a pipe without a
+/// reader).  Prints `panicked delivered` for 3 records: the handler's own trouble is nobody else's.
+fn default_handler_child() -> i32 {
+    std::panic::set_hook(Box::new(|_| {}));
+    let rec = new_rec();
+    let mut builder = Config::builder();
+    for (i, fails) in [false, true, true, false].into_iter().enumerate() {
+        builder = builder.appender(
+            Appender::builder().build(format!("a{}", i), Box::new(RecAppender { idx: i, fails, rec: rec.clone() })),
+        );
+    }
+    let mut root = Root::builder();
+    for i in 0..4 {
+        root = root.appender(format!("a{}", i));
+    }
+    let config = builder.build(root.build(log::LevelFilter::Trace)).expect("config");
+    let logger = log4rs::Logger::new(config);
+    let mut panicked = 0;
+    for n in 0..3 {
+        let r = std::panic::catch_unwind(std::panic::AssertUnwindSafe(|| {
+            logger.log(
+                &log::Record::builder().level(log::Level::Warn).target("t").args(format_args!("{}", n)).build(),
+            );
+        }));
+        if r.is_err() {
+            panicked += 1;
+        }
+    }
+    let delivered = rec.lock().unwrap().len();
+    println!("{} {}", panicked, delivered);
+    0
+}
+
 fn main() {
+    let args: Vec<String> = std::env::args().collect();
+    if args.len() >= 2 && args[1] == "default-handler" {
+        std::process::exit(default_handler_child());
+    }
     vh::main_loop(run);
 }
